@@ -106,6 +106,7 @@ type vsFakePoll struct {
 	deleted    bool
 	adds, dels int
 	frees      int
+	interestW  bool // EPOLLOUT registered (PollR2RW .. PollRW2R / PollDetach): write events are fetched only then (C08)
 }
 
 func (p *vsFakePoll) Wait() error    { return nil }
@@ -121,11 +122,14 @@ func (p *vsFakePoll) Control(operator *FDOperator, event PollEvent) error {
 		p.s.ghost("epoll add")
 	case PollDetach:
 		p.deleted = true
+		p.interestW = false
 		p.dels++
 		p.s.ghost("epoll del")
 	case PollR2RW:
+		p.interestW = true
 		p.s.ghost("epoll mod rw")
 	case PollRW2R:
+		p.interestW = false
 		p.s.ghost("epoll mod r")
 	}
 	return nil
@@ -156,6 +160,7 @@ type vsLifeRun struct {
 	initDone bool
 	peerShut bool
 	hups     []func(p Poll) error
+	skipped  bool // the last handle() found the operator token taken (level-triggered epoll would report the event again)
 	br       barrier
 	nReq     int
 	fdClosed int
@@ -325,7 +330,9 @@ func (r *vsLifeRun) appendHup(op *FDOperator) {
 
 // handle processes one epoll event for the operator; returns true when the hang-up was appended.
 func (r *vsLifeRun) handle(op *FDOperator, evt uint32) bool {
+	r.skipped = false
 	if !op.do() {
+		r.skipped = true
 		r.s.ghost("poller skip")
 		return false
 	}
